@@ -368,20 +368,6 @@ def verdict(s):
 
 
 # ------------------------------------------------------------------ the check
-def translate_only(ck, gen):
-    """ck.translate() restricted to this property's generator (another property's lost anchor is not ours)."""
-    import sys
-    import vlib
-    with vlib.Lock('coq'):
-        rc, out, _ = vlib.sh([sys.executable, vlib.ROOT + '/tools/translate.py', '--repo', vlib.REPO,
-                              '--out', vlib.COQ + '/gen', '--only', gen], timeout=300)
-    lost = [l for l in out.splitlines() if l.startswith('LOST-ANCHOR')]
-    ck.ob('translator regenerates gen/Gen_Kip.v from the working tree', rc == 0 and not lost, 'generated',
-          out if (rc != 0 or lost) else '')
-    ck.trust('translator /verif/tools/translate.py + tools/gen_kip.py (regex extraction of constant tables and dispatch facts from Rust source)')
-    return rc == 0 and not lost
-
-
 def run(ck):
     quick = ck.tier == 'quick'
     ck.rule = ('complete matrix: 15 clause families (CREATE CONCEPT, UPSERT CONCEPT, CREATE EVIDENCE/ASSERTION/ACTIVITY, '
@@ -390,10 +376,12 @@ def run(ck):
                '(4 engine-owned, 18 payload, 9 ordinary) x 6 variants (exact, upper, capitalised, dotted, padded, prefixed) '
                'x bare/quoted spelling, as text through parse_kip and as injected trees through validate_command; 24 '
                'selection patterns x 8 selecting families on both paths; 65 single-guard statements; 27 hand-built '
-               'trees; random multi-clause plans with handle graphs; single-node mutations of accepted trees; the ASSERT '
+               'trees; 4,896 enumerated multi-clause plans (every 2- and 3-subset of 13 clause templates and every 4-subset of 9, in '
+               'every order: forward references, WHERE-bound vs plan-output vs sibling-WHERE-bound handles, double claims); '
+               'random multi-clause plans; single-node mutations of accepted trees; the ASSERT '
                'member matrix. non-trivial = a distinct model-compared tree that names an engine-owned or payload '
                'field, a typed target, a selection pattern, or has >= 2 clauses')
-    translate_only(ck, 'gen_kip')
+    ck.translate(only=['gen_kip'])
     ck.coq(['Kip/Props.v'], ['Kip', 'gen'], model_targets=['Kip/Run.vo'])
     ck.assume('field names are compared exactly, as the engine resolves them (kml/update.rs, kml/clauses.rs match on the exact '
               'name); case / dotted / padded spellings are therefore ordinary names',
@@ -424,7 +412,7 @@ def run(ck):
     ck.count(summary['evaluations'])
     ck.cov['input_distribution'] = {k: summary[k] for k in (
         'texts', 'text_accepted', 'text_errors', 'injected', 'accepted', 'rejected', 'trees_written', 'families',
-        'seeds', 'asserts', 'assert_accepted')}
+        'seeds', 'asserts', 'assert_accepted', 'graph_plans')}
 
     # ---- direct oracle on the implementation (the failing-input search)
     by_cls = Counter(f['class'] for f in summary['failures'])
@@ -451,7 +439,11 @@ def run(ck):
             b = (r['path'], r['family'], r['verdict'])
             k = per_bucket.setdefault(b, [0, 0])
             is_hot = r['important'] and bool(hot.search(r['src']))
-            if r['verdict'] != 'ok' and not r['family'].startswith(('mutation', 'plan')):
+            if r['family'].startswith('graph'):
+                k[1] += 1
+                if k[1] % 4 == 1:
+                    chosen.append(r)
+            elif r['verdict'] != 'ok' and not r['family'].startswith(('mutation', 'plan')):
                 chosen.append(r)
             elif is_hot and k[0] < 6:
                 k[0] += 1
@@ -465,31 +457,37 @@ def run(ck):
     if cap and len(chosen) > cap:
         step = len(chosen) / float(cap)
         chosen = [chosen[int(i * step)] for i in range(cap)]
-    cases, kept, conv_err = [], [], []
-    for r in chosen:
-        if r['verdict'].startswith('other:'):
-            conv_err.append('unexpected error code %s for %s' % (r['verdict'], r['src'][:200]))
-            continue
-        try:
-            cases.append({'t': [command(r['cmd']), verdict(r['verdict'])]})
-            kept.append(r)
-        except Exception as ex:  # a new AST shape the converter does not know is a broken tie, not a pass
-            conv_err.append('%r on %s' % (ex, r['src'][:200]))
+    # converted and evaluated in chunks so that the thorough tier (every tree) stays within memory
+    kept, conv_err, res = [], [], []
+    chunk = 12000
+    for lo in range(0, len(chosen), chunk):
+        cases = []
+        for r in chosen[lo:lo + chunk]:
+            if r['verdict'].startswith('other:'):
+                conv_err.append('unexpected error code %s for %s' % (r['verdict'], r['src'][:200]))
+                continue
+            try:
+                cases.append({'t': [command(r['cmd']), verdict(r['verdict'])]})
+                kept.append(r)
+            except Exception as ex:  # a new AST shape the converter does not know is a broken tie, not a pass
+                conv_err.append('%r on %s' % (ex, r['src'][:200]))
+        res.extend(ck.eval_cases(IMPORTS, 'command * verdict', 'check_tree', cases, shard=150, timeout=3000,
+                                 label='trees'))
+        del cases
     ck.ob('every emitted tree converts to the Coq AST (%d of %d written trees compared)' % (len(kept), len(trees)),
           not conv_err, 'correspondence', '\n'.join(conv_err[:5]))
-    res = ck.eval_cases(IMPORTS, 'command * verdict', 'check_tree', cases, shard=150, timeout=3000, label='trees')
     bad = [i for i, x in enumerate(res) if x is not True]
     detail = ''
     if bad:
         from coqterm import to_coq
         i = bad[0]
         r = kept[i]
-        term_txt = to_coq(cases[i]['t'][0])
+        term_txt = to_coq(command(r['cmd']))
         detail = 'case %d of %d disagreeing (%s path): %s\nimplementation: %s\nmodel: %s\nsafe_b: %s' % (
             i, len(bad), r['path'], r['src'][:600], r['verdict'],
             ck.eval_term(IMPORTS, 'run_validate ' + term_txt)[-200:], ck.eval_term(IMPORTS, 'safe_b ' + term_txt)[-100:])
     ck.ob('model validate_command = implementation verdict, and safe_b holds, on %d trees (%d accepted, %d refused)' % (
-        len(cases), sum(1 for r in kept if r['verdict'] == 'ok'), sum(1 for r in kept if r['verdict'] != 'ok')),
+        len(kept), sum(1 for r in kept if r['verdict'] == 'ok'), sum(1 for r in kept if r['verdict'] != 'ok')),
         not bad, 'correspondence', detail)
     for i in bad[:200]:
         r = kept[i]
@@ -534,5 +532,5 @@ def run(ck):
         not abad and not aerr, 'correspondence', detail)
     for r in akept:
         ck.nontrivial(('assert', r['src']))
-    ck.count(len(cases) + len(acases))
+    ck.count(len(kept) + len(acases))
     ck.finish(exhaustive=True)
